@@ -43,6 +43,7 @@ func init() {
 		_, _, err = h.ProcessMDNS(frame)
 		return oe(err)
 	}
+	impls["ptxt"] = func(a []string) string { return impls["mdns"](a[:1]) } // same path; the model side is parse_txt
 	impls["nbns"] = func(a []string) string {
 		msg := lib.UnHex(a[0])
 		c := ctxFor(false)
